@@ -21,7 +21,7 @@ TRAINERS = ["TRAINER_A", "TRAINER_B"]
 
 # AutoVar configuration used by the generators: one fixed-name command, one positional.
 AUTOVARS = {"random": ("VAR_RESULT", None), "specialvar": ("", 0), "checkitem": ("VAR_RESULT", None),
-            "avtext": ("VAR_RESULT", None)}
+            "avtext": ("VAR_RESULT", None), "choosemon": ("VAR_0x8004", None), "lastarg": ("", 2)}
 
 def base_cfg(**kw):
     c = Cfg(autovars=AUTOVARS)
@@ -49,6 +49,10 @@ class G:
         if r.random() < 0.5:
             n = r.randint(2, 4)
             return ("auto", "random(%d)" % n, "random %d" % n, "VAR_RESULT", form, r.choice(OPS), r.randint(0, 2))
+        if r.random() < 0.25:     # a configured result var with lower-case characters; a var named by the LAST argument
+            if r.random() < 0.5: return ("auto", "choosemon", "choosemon", "VAR_0x8004", form, r.choice(OPS), r.randint(0, 2))
+            v = r.choice(["VAR_X", "VAR_Y"])
+            return ("auto", "lastarg(1, TWO, %s)" % v, "lastarg 1, TWO, %s" % v, v, form, r.choice(OPS), r.randint(0, 2))
         v = r.choice(["VAR_X", "VAR_Y"])
         return ("auto", "specialvar(%s, 7)" % v, "specialvar %s, 7" % v, v, form, r.choice(OPS), r.randint(0, 2))
 
